@@ -79,11 +79,24 @@ Theorem C19_sources_targets_inverse :
     In s (list_sources m t) <-> exists e, In e (list_targets m s) /\ entry_contains e t = true.
 Proof. exact sources_targets_inverse. Qed.
 
-(** The instance checker run on the implementation's source map decides well-formedness. *)
-Theorem C19_checker_sound :
+(** A syntactic sufficient condition for the restricted theorem: neither a calibration body nor the
+    source body contains a DECLARE. *)
+Theorem C19_wellformed_no_declare :
+  forall (cs : cals) (fuel : nat) (p p' : program) (m : list entry),
+    cals_no_declare cs = true -> forallb not_hoisted (body p) = true ->
+    expand_program_sm (instantiate cs) fuel p = Ok (p', m) ->
+    WFmap (instantiate cs) (body p) (body p') m.
+Proof.
+  intros cs fuel p p' m Hc Hb H.
+  exact (expand_program_sm_wf (instantiate cs) fuel p p' m H (no_declare_no_hoist cs fuel (body p) Hc Hb)).
+Qed.
+
+(** The instance checker run on the implementation's source map decides well-formedness exactly:
+    it accepts iff the map is well formed (so a rejection is a violation on that concrete input). *)
+Theorem C19_checker_correct :
   forall (inst : instr -> option (list instr * calsrc)) (src out : list instr) (m : list entry),
-    chk_wfmap inst src out m = true -> WFmap inst src out m.
-Proof. exact chk_wfmap_sound. Qed.
+    chk_wfmap inst src out m = true <-> WFmap inst src out m.
+Proof. exact chk_wfmap_iff. Qed.
 
 (** Non-vacuity: nested calibrations [DEFCAL X 0: Y 0; NOP], [DEFCAL Y 0: WAIT; HALT] applied to
     [NOP; X 0; Y 0] (X = 1, Y = 2): the model's map, accepted by the checker. *)
